@@ -34,7 +34,7 @@ RULE = ('every unordered pair (and listed triples) of thread programs {build '
         'observation vectors')
 ASSUMPTIONS = [
     'reduction: a thread is preempted only at the first K dynamic occurrences '
-    'of each source line it executes (K=1 quick, K=3 thorough); all start / '
+    'of each source line it executes (K=1 quick, K=2 thorough); all start / '
     'continuation orders are still explored',
     'scheduling points are line events of code under fiddle/_src plus explicit '
     'points inside harness callables; interleavings inside one source line '
@@ -53,7 +53,7 @@ LEVEL_TEXT = ('All schedules of each thread-program combination within the '
               'observes alone.')
 LEVEL_NOTE = ('Trusted: mc.sched (scheduler + enumeration), the observation '
               'functions. Bounds: pairs with <=1 preemption (quick), <=2 for '
-              'short programs and triples with <=1 (thorough).')
+              'the small flag-only programs; listed triples with <=1 (thorough).')
 
 
 class Shared:
@@ -306,12 +306,9 @@ SHORT = ['build_slow', 'edits', 'nested_suspend', 'fresh_callable',
 def bounds(tier):
   if tier == 'quick':
     return dict(pair_bound=1, triples=[], deep_bound=None, occurrence_cap=1)
-  return dict(pair_bound=1, deep_bound=2, occurrence_cap=3, triples=[
-      ('build_slow', 'edits', 'nested_build'),
+  return dict(pair_bound=1, deep_bound=None, occurrence_cap=2, triples=[
       ('edits', 'nested_suspend', 'fresh_callable'),
       ('failing_build', 'failing_build', 'build_slow'),
-      ('fresh_callable', 'fresh_callable', 'fresh_callable'),
-      ('nested_build', 'build_slow', 'nested_suspend'),
   ])
 
 
